@@ -35,6 +35,35 @@ class Wsdl(object):
         self.bindings = {b.get('name'): b for b in self.root.findall(q(WSDL, 'binding'))}
         self.services = {s.get('name'): s for s in self.root.findall(q(WSDL, 'service'))}
 
+    def duplicate_problems(self):
+        """a reference resolves to exactly ONE definition: names are unique per symbol space (WSDL 1.1 sec. 2.1.1 for
+        messages, port types, bindings and services of one target namespace; XSD for the top-level components of
+        one namespace; parts within a message, ports within a service)"""
+        out = []
+
+        def dup(kind, names):
+            seen = set()
+            for n in names:
+                if n in seen:
+                    out.append('%s %r is defined more than once' % (kind, n))
+                seen.add(n)
+        for kind in ('message', 'portType', 'binding', 'service'):
+            dup('wsdl:' + kind, [e.get('name') for e in self.root.findall(q(WSDL, kind))])
+        for m in self.root.findall(q(WSDL, 'message')):
+            dup('part of message %s' % m.get('name'), [e.get('name') for e in m.findall(q(WSDL, 'part'))])
+        for sv in self.root.findall(q(WSDL, 'service')):
+            dup('port of service %s' % sv.get('name'), [e.get('name') for e in sv.findall(q(WSDL, 'port'))])
+        comps = {}
+        for sch in self.root.iter(q(XS, 'schema')):
+            ns = sch.get('targetNamespace')
+            for ch in sch:
+                if isinstance(ch.tag, str) and ch.get('name') is not None:
+                    kind = 'type' if ch.tag in (q(XS, 'complexType'), q(XS, 'simpleType')) else etree.QName(ch).localname
+                    comps.setdefault(kind, []).append((ns, ch.get('name')))
+        for kind, names in sorted(comps.items()):
+            dup('xs:' + kind, names)
+        return out
+
     def resolve(self, node, text):
         if ':' in text:
             p, l = text.split(':', 1)
